@@ -621,7 +621,9 @@ Definition shadow_step (arg : bytes) (cur : cmd) (pos_index : N) (is_escaped : b
               | Some o =>
                   match a_num o with
                   | None => SPanic 84
-                  | Some r => if r_takes_values r && is_none value
+                  | Some r => (* like the real parser, an option that requires `=` never takes the next word as its
+                                 value (repair of finding C18-require-equals) *)
+                              if r_takes_values r && is_none value && negb (a_req_eq o)
                               then SNext cur pos_index is_escaped (Opt o 1) true
                               else SNext cur pos_index is_escaped ValueDone true
                   end
@@ -636,7 +638,7 @@ Definition shadow_step (arg : bytes) (cur : cmd) (pos_index : N) (is_escaped : b
                 | SFPanic => SPanic 603
                 | SFFuel => SFuel
                 | SFOk _ (Some o) short' =>
-                    if is_none (next_value_os short') then SNext cur pos_index is_escaped (Opt o 1) true
+                    if is_none (next_value_os short') && negb (a_req_eq o) then SNext cur pos_index is_escaped (Opt o 1) true
                     else SNext cur pos_index is_escaped ValueDone true
                 | SFOk flags None _ =>
                     (* known flags stay flags even if the next positional allows hyphens (fix d4a15c6) *)
@@ -889,6 +891,110 @@ Definition complete_model_before_termfix (tbl : pvtable) (c : cmd) (args : list 
   | BInvalid => CInvalid
   | BFuel => CFuel
   | BOk b => match start_walk_before_termfix b args arg_index with
+             | WPanic s => CPanic s
+             | WFuel => CFuel
+             | WEnd => CErr
+             | WAt arg cur pi st _ vaf => complete_arg_v tbl arg cur pi st vaf
+             end
+  end.
+
+(** ** the loop BEFORE the repair of finding C18-require-equals (behind `--opt` / `-o` the engine always waited for a value, also
+    when the option requires `=`; kept for the witness [require_equals_before_after]) *)
+Definition shadow_step_before_reqfix (arg : bytes) (cur : cmd) (pos_index : N) (is_escaped : bool) (current_state : pstate)
+           (valid_arg_found : bool) : step :=
+  let positional :=
+    match parse_positional cur pos_index is_escaped current_state arg with
+    | Some (st, pi) => SNext cur pi is_escaped st true
+    | None => SPanic 673
+    end in
+  (* like the real parser, a value of a pending option or of a positional that is still being
+     filled is not a subcommand (fixes 689b619, c6f4cbc), and neither is a word that follows an argument of a
+     command whose arguments conflict with subcommands *)
+  let maybe_subcommand :=
+    (is_set s_sub_precedence cur
+     || negb (match current_state with Opt _ _ | Pos _ _ => true | ValueDone => false end))
+    && negb (is_set s_args_negate_subs cur && valid_arg_found) in
+  match (if maybe_subcommand && utf8_valid arg then find_subcommand cur arg else None) with
+  | Some next_cmd => SNext next_cmd 1 is_escaped ValueDone false
+  | None =>
+      if is_escaped then positional
+      else if is_escape arg then SNext cur pos_index true ValueDone valid_arg_found
+      else if opt_allows_hyphen current_state arg then
+        match current_state with
+        | Opt o count => match parse_opt_value o count arg with
+                         | Some st => SNext cur pos_index is_escaped st valid_arg_found
+                         | None => SPanic 673 end
+        | _ => SPanic 69
+        end
+      else
+        match to_long arg with
+        | Some (flag, flag_utf8, value) =>
+            if flag_utf8 then
+              match find_long_visible cur flag with
+              | Some o =>
+                  match a_num o with
+                  | None => SPanic 84
+                  | Some r => if r_takes_values r && is_none value
+                              then SNext cur pos_index is_escaped (Opt o 1) true
+                              else SNext cur pos_index is_escaped ValueDone true
+                  end
+              | None => if pos_allows_hyphen cur pos_index then positional
+                        else SNext cur pos_index is_escaped ValueDone valid_arg_found
+              end
+            else SNext cur pos_index is_escaped ValueDone valid_arg_found
+        | None =>
+            match to_short arg with
+            | Some short =>
+                match parse_shortflags cur short with
+                | SFPanic => SPanic 603
+                | SFFuel => SFuel
+                | SFOk _ (Some o) short' =>
+                    if is_none (next_value_os short') then SNext cur pos_index is_escaped (Opt o 1) true
+                    else SNext cur pos_index is_escaped ValueDone true
+                | SFOk flags None _ =>
+                    (* known flags stay flags even if the next positional allows hyphens (fix d4a15c6) *)
+                    if utf8_valid arg && forallb (has_short cur) (decode flags)
+                    then SNext cur pos_index is_escaped ValueDone true
+                    else if pos_allows_hyphen cur pos_index then positional
+                    else SNext cur pos_index is_escaped ValueDone valid_arg_found
+                end
+            | None =>
+                match current_state with
+                | Opt o count => match parse_opt_value o count arg with
+                                 | Some st => SNext cur pos_index is_escaped st valid_arg_found
+                                 | None => SPanic 673 end
+                | _ => positional
+                end
+            end
+        end
+  end.
+
+Fixpoint shadow_walk_before_reqfix (items : list bytes) (cursor target : N) (cur : cmd) (pos_index : N)
+         (is_escaped : bool) (next_state : pstate) (valid_arg_found : bool) : walk :=
+  match items with
+  | [] => WEnd
+  | arg :: rest =>
+      let cursor := sat_add cursor 1 in
+      if cursor =? target then WAt arg cur pos_index next_state is_escaped valid_arg_found
+      else
+        match shadow_step_before_reqfix arg cur pos_index is_escaped next_state valid_arg_found with
+        | SPanic s => WPanic s
+        | SFuel => WFuel
+        | SNext cur' pi esc st vaf => shadow_walk_before_reqfix rest cursor target cur' pi esc st vaf
+        end
+  end.
+
+Definition start_walk_before_reqfix (b : cmd) (args : list bytes) (arg_index : N) : walk :=
+  let len := N.of_nat (length args) in
+  let target := sat_add (N.min arg_index len) 1 in
+  let cursor := if is_set s_no_binary_name b then 0 else 1 in
+  shadow_walk_before_reqfix (skipn (N.to_nat cursor) args) cursor target b 1 false ValueDone false.
+
+Definition complete_model_before_reqfix (tbl : pvtable) (c : cmd) (args : list bytes) (arg_index : N) : cres :=
+  match build_full (build_fuel c) c with
+  | BInvalid => CInvalid
+  | BFuel => CFuel
+  | BOk b => match start_walk_before_reqfix b args arg_index with
              | WPanic s => CPanic s
              | WFuel => CFuel
              | WEnd => CErr
